@@ -249,4 +249,19 @@ theorem closeAgree_initial (c : Rat) (hc : 0 < c) :
     CloseAgree c (initSim (mkParams tb0 cfgPsi) 1 []) :=
   closeAgree_init_gen (eqParams_of_valid tb0 cfgPsi tb0_valid cfgPsi_valid) (capital_nonneg cfgPsi rfl) c hc 1
 
+/-! ### F37: the sign hypotheses of `tracker_init_ok` are necessary, and the validators now establish them -/
+
+/-- the rebuilding event of the witnesses with shares 3/2 and −1/2 (they add up to 1): what the code accepted before F37 -/
+def evNegShare : EventSpec d0 := { evReb with shares := fun s => if s.val = 1 then 3 / 2 else -1 / 2, isReb := fun _ => true }
+
+/-- it is now rejected … -/
+theorem negShare_rejected : eventRejected evNegShare :=
+  event_negative_share_rejected evNegShare rfl ⟨0, by decide⟩ (by simp [evNegShare, evReb]; norm_num)
+
+/-- … and the sign hypothesis of `tracker_init_ok` is necessary: the ledger this event would start with has a negative
+    cell (supplier sector 0 of region 0, damaged industry (0, 0)) -/
+theorem negShare_negative_demand : rem0I tb0 evNegShare 1000000 (⟨0, by decide⟩, ⟨0, by decide⟩) (⟨0, by decide⟩, ⟨0, by decide⟩) < 0 := by
+  simp [rem0I, evNegShare, evReb, distI, zC, tb0, convFactor, sumFin, Fin.foldl_succ, Fin.foldl_zero]
+  norm_num
+
 end Boario.NV
